@@ -334,7 +334,7 @@ func (s *SharedStore) GetSliceOr(key string, defaultVal []any) []any {
 
 	// Try to convert using reflection
 	result := ToSlice(val)
-	if len(result) == 1 && result[0] == val {
+	if reflect.ValueOf(val).Kind() != reflect.Slice {
 		// ToSlice wrapped a non-slice value, so this wasn't actually a slice
 		return defaultVal
 	}
